@@ -17,7 +17,7 @@ SWM = 'renoir::operator::window::descr::session::SessionWindowManager'
 WRES = 'renoir::operator::window::WindowResult'
 
 
-def edges(dnf, name='el'):
+def edges(dnf, name='arg2'):      # WindowManager::process(&mut self, el): the element is the second parameter
     vs = set()
     for c in dnf:
         for a in c:
@@ -325,7 +325,7 @@ def c12_r4(ctx):
 
             def structural(a):
                 # the data edge, the loop over the slots and the slot-allocation loop are not conditions on the element
-                return (a[0] in ('is', 'isin') and (a[1] == 'el' or 'Iterator::next' in a[1] or 'next(' in a[1])) or \
+                return (a[0] in ('is', 'isin') and (a[1] == 'arg2' or 'Iterator::next' in a[1] or 'next(' in a[1])) or \
                     (a[0] == 'cmp' and 'len(' in a[1] + a[2])
             uncond = q.covers_all(dnf, ignore=structural)
             extra = [] if uncond else sorted({show_dnf([[a]])[0] for c in dnf for a in c if not structural(a)})
